@@ -552,7 +552,7 @@ fn main() {
             check.fail(&f, serde_json::to_value(&c).unwrap());
         }
     }
-    let n = check.tier.pick(2_400u32, 100_000);
+    let n = check.tier.pick(8_000u32, 100_000);
     pt::run(
         &check,
         "c07",
